@@ -205,6 +205,39 @@ def _run_case_inner(ctx, case):
         except Exception as e:
             bad('sign.raises', 'creator sign raised %r' % e)
         _judge(ctx, case, t, signed, m, spk, amount, 'creator', flags)
+        if case.get('resign_nonces') and m >= 2:
+            # the SAME cosigner signs the same digest again with other nonces: m signatures, one signer. Judged on a
+            # copy (object and dict hand-off to another cosigner); the ceremony itself continues with t
+            try:
+                from copy import deepcopy
+                from bitcoinlib.keys import sign as _lsign
+                tc = deepcopy(t)
+                for k_, inp in enumerate(tc.inputs):
+                    priv = [x for x in inp.keys if x.is_private]
+                    if not priv or not inp.signatures:
+                        raise ValueError('no private key / signature on the creator copy')
+                    digest = tc.signature_hash(k_, 1, inp.witness_type)
+                    extra = [_lsign(digest, priv[0], k=1000 + 17 * z_, hash_type=1) for z_ in range(m - 1)]
+                    for e_ in extra:
+                        e_.public_key = inp.signatures[0].public_key
+                    inp.signatures = list(inp.signatures) + extra
+                    inp.update_scripts()
+                flags.add('one_signer_many_signatures')
+            except Exception as e:
+                ctx.refusal('resign_nonces.%s' % type(e).__name__)
+                tc = None
+            if tc is not None:
+                _judge(ctx, case, tc, signed, m, spk, amount, 'creator signing %d times with different nonces' % m,
+                       flags)
+                other = wallets[(creator + 1) % n]
+                try:
+                    ti = other.transaction_import(tc.as_dict())
+                except Exception as e:
+                    ctx.refusal('resign_nonces.import.%s' % type(e).__name__)
+                    ti = None
+                if ti is not None:
+                    _judge(ctx, case, ti, signed, m, spk, amount, 'cosigner importing (dict) the transaction signed %d '
+                           'times by one cosigner' % m, flags)
         prev_medium = None
         for step, h in enumerate(case['handoffs']):
             j = h['signer'] % n
@@ -382,6 +415,7 @@ def _strategy(ctx):
         return {'kind': 'ceremony', 'n': n, 'm': m, 'witness_type': wt, 'seeds': [s.hex() for s in seeds],
                 'afs': afs, 'locktime': locktime, 'perms': perms,
                 'two_inputs': draw(st.sampled_from([False, False, True])),
+                'resign_nonces': draw(st.sampled_from([False, False, True])),
                 'bulk': draw(st.sampled_from([0, 0, 2, 3])), 'bulk_change': draw(st.sampled_from([0, 0, 1])), 'creator': draw(st.integers(0, n - 1)), 'handoffs': handoffs,
                 'rng': draw(st.integers(0, 2 ** 31))}
     return cases()
